@@ -77,7 +77,7 @@ let () =
        if String.length line > 2 && line.[0] = 'E' then begin
          last_ev := line;
          match String.split_on_char ' ' line with
-         | [_; _step; tid; kind; _order; where; obj; a; b; ok] ->
+         | [_; _step; tid; kind; _order; where; obj; a; b; ok; _now] ->
            let t = int_of_string tid and a = int_of_string a and b = int_of_string b and ok = (ok = "1") in
            let file, ln = (match String.split_on_char ':' where with [f; l] -> f, (try int_of_string l with _ -> 0) | _ -> where, 0) in
            if file = "mu.c" then begin
